@@ -35,10 +35,27 @@ def run(chk, unit="asmjit/core/builder.cpp", rule="R-LABEL-NODE-AT-OWN-INDEX"):
         j, loop = i, None
         while j in par:
             j = par[j]
-            if (fn.e(j) or {}).get("k") == "s:WhileStmt":
+            if (fn.e(j) or {}).get("k") in ("s:WhileStmt", "s:ForStmt"):
                 loop = fn.e(j)
                 break
         if loop is None or loop.get("cond") is None:
+            continue
+        if loop["k"] == "s:ForStmt":
+            # for (T i = A; i < B; i++) { append(nullptr); }  appends B - A elements (B >= A)
+            c = fn.e(fn.strip(loop["cond"]))
+            ivar = fn.e(fn.strip(c["lhs"])) if c and c["k"] == "binop" and c["op"] in ("<", "<=") else None
+            if ivar is None or ivar["k"] != "ref":
+                continue
+            init = [dv for d in fn.ex.values() if d["k"] == "decl" for dv in d["vars"] if dv["did"] == ivar["did"] and dv.get("init") is not None]
+            inc = any((fn.e(q) or {}).get("k") == "unop" and (fn.e(q) or {}).get("op") == "++" and (fn.e(fn.strip(fn.e(q)["sub"])) or {}).get("did") == ivar["did"]
+                      for q in fn.walk(j))
+            assigned_in_body = any((fn.e(q) or {}).get("k") == "binop" and (fn.e(q) or {}).get("op", "").endswith("=") and (fn.e(q) or {}).get("op") not in ("==", "!=", "<=", ">=") and
+                                   (fn.e(fn.strip(fn.e(q)["lhs"])) or {}).get("did") == ivar["did"] for q in fn.walk(j))
+            if len(init) != 1 or not inc or assigned_in_body:
+                continue
+            a0 = sym.lin(init[0]["init"], fi)
+            b0 = sym.lin(c["rhs"], fi)        # (the bound is not modified by the loop: checked below through the linear form of its definition)
+            padding = padding.add(b0).add(a0, -1).add(Lin(1 if c["op"] == "<=" else 0))
             continue
         c = fn.e(fn.strip(loop["cond"]))
         if not (c and c["k"] == "binop" and c["op"] in (">", ">=")):
